@@ -88,6 +88,39 @@ func joinedCodes(en *lib.Enum) []string {
 	return out
 }
 
+// glyphVariants: strings that LOOK like a code or alias one under a careless conversion — the
+// full-width forms (U+FF21...), one character at a time and all at once, in both cases; runes whose
+// low byte or low 16 bits equal the code letter; a combining accent behind the code; Cyrillic and
+// Greek capitals of the same shape (round 5, C20-A-r5: width.Fold before the lookup)
+func glyphVariants(en *lib.Enum) []string {
+	look := map[rune][]rune{'A': {'А', 'Α'}, 'C': {'С'}, 'E': {'Е', 'Ε'}, 'H': {'Н', 'Η'}, 'I': {'І', 'Ι'}, 'M': {'М', 'Μ'}, 'N': {'Ν'}, 'O': {'О', 'Ο'}, 'P': {'Р', 'Ρ'}, 'T': {'Т', 'Τ'}, 'X': {'Х', 'Χ'}, 'S': {'Ѕ'}, 'F': {'Ϝ'}, 'L': {'Ｌ'}, 'U': {'Ս'}, 'R': {'Ꭱ'}, 'W': {'Ԝ'}, 'D': {'Ꭰ'}}
+	var out []string
+	for _, c := range en.Codes {
+		rs := []rune(c.Code)
+		all := make([]rune, len(rs))
+		allLower := make([]rune, len(rs))
+		for i, ch := range rs {
+			all[i] = ch + 0xFEE0
+			allLower[i] = []rune(strings.ToLower(string(ch)))[0] + 0xFEE0
+			one := append([]rune{}, rs...)
+			one[i] = ch + 0xFEE0
+			out = append(out, string(one))
+			for _, hi := range []rune{0x100, 0x200, 0x2500, 0xFF00, 0x10000, 0x1F600} {
+				alias := append([]rune{}, rs...)
+				alias[i] = hi | ch
+				out = append(out, string(alias))
+			}
+			for _, l := range look[ch] {
+				lk := append([]rune{}, rs...)
+				lk[i] = l
+				out = append(out, string(lk))
+			}
+		}
+		out = append(out, string(all), string(allLower), c.Code+"\u0301", "\u200b"+c.Code, c.Code+"\u200b", "\ufeff"+c.Code, c.Code+"\ufe0f")
+	}
+	return out
+}
+
 func tableCase(en *lib.Enum, what string, arg any) map[string]any {
 	return map[string]any{"cvss": en.Ver, "metric": en.Name, "what": what, "argument": arg}
 }
@@ -151,7 +184,7 @@ func init() {
 				// joined by every separator of a punctuation alphabet (and by nothing), every
 				// code with a separator in front or behind, and "name<sep>code": a list-based or
 				// substring-based lookup accepts some of them (round 4, C20-A-r4)
-				for _, sdec := range joinedCodes(en) {
+				for _, sdec := range append(joinedCodes(en), glyphVariants(en)...) {
 					if en.Has(sdec) {
 						continue
 					}
@@ -232,7 +265,7 @@ func init() {
 		r.Set("metrics", int64(len(lib.Enums3)+len(lib.Enums2)))
 		r.Set("non_code_strings_per_metric", int64(len(others)))
 		r.Set("exhaustive", true)
-		r.Set("rule", "36 metrics + 2 version parsers x (every specification code; every string of length <=3 over A-Z0-9, every code padded with 1-3 bytes of NUL/blank/tab/newline/0xFF in front, behind or both, every sequence of 2-3 codes of the metric joined by each of 19 separators, and a few other shapes as non-codes; every enumeration integer in [-2, max+2] and +-2^31): Get(code).String()==code and equals the constant the library names for that code, distinct codes give distinct values, every other string gives the unknown/invalid constant, which prints empty and on which IsUnknown/IsValid answers differently than on every defined value; Value(...) equals the specification weight for every value, both scopes for PR/MPR (all MS x S x PR contexts) and every base value for a Not Defined Modified metric; distinct by (metric, argument)")
+		r.Set("rule", "36 metrics + 2 version parsers x (every specification code; every string of length <=3 over A-Z0-9, every code padded with 1-3 bytes of NUL/blank/tab/newline/0xFF in front, behind or both, every sequence of 2-3 codes of the metric joined by each of 19 separators, every code in full-width, low-byte-aliasing and look-alike (Cyrillic, Greek) characters, and a few other shapes as non-codes; every enumeration integer in [-2, max+2] and +-2^31): Get(code).String()==code and equals the constant the library names for that code, distinct codes give distinct values, every other string gives the unknown/invalid constant, which prints empty and on which IsUnknown/IsValid answers differently than on every defined value; Value(...) equals the specification weight for every value, both scopes for PR/MPR (all MS x S x PR contexts) and every base value for a Not Defined Modified metric; distinct by (metric, argument)")
 		r.Assume("weights compared as float64 parsed from the specification's decimal strings (the library's tables are float literals of the same decimals)")
 	})
 }
